@@ -22,6 +22,7 @@ from elementpath.datatypes import AnyAtomicType, AnyURI, AbstractDateTime, \
 from elementpath.xpath_nodes import XPathNode, ElementNode, AttributeNode, DocumentNode, \
     NamespaceNode, TextNode, CommentNode, ProcessingInstructionNode
 from elementpath.xpath_nodes import EtreeElementNode
+from elementpath.etree import etree_iter_text
 from elementpath.xpath_tokens import XPathToken, XPathMap, XPathArray
 from elementpath.protocols import EtreeElementProtocol, LxmlElementProtocol
 
@@ -296,6 +297,10 @@ def serialize_to_xml(elements: Iterable[Any],
         if isinstance(item, ElementNode):
             assert isinstance(item, EtreeElementNode)
             elem = item.value
+            if method == 'text':
+                # the string value: the library serializers also write comment and PI content
+                chunks.append(''.join(etree_iter_text(elem)))
+                continue
             if elem.tail is not None:
                 # the tail is not part of the element: serialize a copy without it
                 elem = copy(elem)
@@ -321,6 +326,8 @@ def serialize_to_xml(elements: Iterable[Any],
                 chunks.append(f'<![CDATA[{item.value}]]>')
             else:
                 chunks.append(item.value)
+            continue
+        elif isinstance(item, (CommentNode, ProcessingInstructionNode)) and method == 'text':
             continue
         elif isinstance(item, CommentNode):
             chunks.append(f'<!--{item.string_value}-->')
